@@ -1,5 +1,457 @@
-//! C07 - monitor not written yet.
+//! C07 - pkg_summary entries round-trip.
+//!
+//! Refuting events, for a model entry M (all 11 required variables, any
+//! optional ones): a `Summary` built by any call history realising M prints a
+//! text T != print(M) or shows a getter value != M; parsing T gives a getter
+//! value != M; parsing a canonical text and printing it is not
+//! byte-identical; two histories with equal final values print differently.
+//!
+//! This file also holds the binding between the reference model's variable
+//! table and the library's getters/setters, shared with C08 and C09.
 
-use crate::fw::Cx;
+use crate::fw::{CaseResult, Cx, Fail, Tier};
+use crate::gen::summary::{self as gs, Op};
+use crate::oracle::summary::{self as os, Entry, Kind, Val, NVARS, VARS};
+use crate::rng::hash_strs;
+use pkgsrc::summary::{MissingVariable, Summary, SummaryError};
+use std::str::FromStr;
 
-pub fn run(_cx: &mut Cx) {}
+// ---------------------------------------------------------------------------
+// Binding: table index <-> public API
+// ---------------------------------------------------------------------------
+
+fn s(x: Option<&str>) -> Option<Val> {
+    x.map(|v| Val::S(v.to_string()))
+}
+fn i(x: Option<i64>) -> Option<Val> {
+    x.map(Val::I)
+}
+fn a(x: Option<&[String]>) -> Option<Val> {
+    x.map(|v| Val::A(v.to_vec()))
+}
+
+/// Read one variable through its public getter.
+pub fn get(sum: &Summary, var: usize) -> Option<Val> {
+    match var {
+        os::BUILD_DATE => s(sum.build_date()),
+        os::CATEGORIES => s(sum.categories()),
+        os::COMMENT => s(sum.comment()),
+        os::CONFLICTS => a(sum.conflicts()),
+        os::DEPENDS => a(sum.depends()),
+        os::DESCRIPTION => a(sum.description()),
+        os::FILE_CKSUM => s(sum.file_cksum()),
+        os::FILE_NAME => s(sum.file_name()),
+        os::FILE_SIZE => i(sum.file_size()),
+        os::HOMEPAGE => s(sum.homepage()),
+        os::LICENSE => s(sum.license()),
+        os::MACHINE_ARCH => s(sum.machine_arch()),
+        os::OPSYS => s(sum.opsys()),
+        os::OS_VERSION => s(sum.os_version()),
+        os::PKG_OPTIONS => s(sum.pkg_options()),
+        os::PKGNAME => s(sum.pkgname()),
+        os::PKGPATH => s(sum.pkgpath()),
+        os::PKGTOOLS_VERSION => s(sum.pkgtools_version()),
+        os::PREV_PKGPATH => s(sum.prev_pkgpath()),
+        os::PROVIDES => a(sum.provides()),
+        os::REQUIRES => a(sum.requires()),
+        os::SIZE_PKG => i(sum.size_pkg()),
+        os::SUPERSEDES => a(sum.supersedes()),
+        _ => None,
+    }
+}
+
+/// All 23 getters as a model entry.
+pub fn observe(sum: &Summary) -> Entry {
+    let mut e = Entry::new();
+    for var in 0..NVARS {
+        e.vals[var] = get(sum, var);
+    }
+    e
+}
+
+fn set_s(sum: &mut Summary, var: usize, v: &str) {
+    match var {
+        os::BUILD_DATE => sum.set_build_date(v),
+        os::CATEGORIES => sum.set_categories(v),
+        os::COMMENT => sum.set_comment(v),
+        os::FILE_CKSUM => sum.set_file_cksum(v),
+        os::FILE_NAME => sum.set_file_name(v),
+        os::HOMEPAGE => sum.set_homepage(v),
+        os::LICENSE => sum.set_license(v),
+        os::MACHINE_ARCH => sum.set_machine_arch(v),
+        os::OPSYS => sum.set_opsys(v),
+        os::OS_VERSION => sum.set_os_version(v),
+        os::PKG_OPTIONS => sum.set_pkg_options(v),
+        os::PKGNAME => sum.set_pkgname(v),
+        os::PKGPATH => sum.set_pkgpath(v),
+        os::PKGTOOLS_VERSION => sum.set_pkgtools_version(v),
+        os::PREV_PKGPATH => sum.set_prev_pkgpath(v),
+        _ => {}
+    }
+}
+
+fn set_i(sum: &mut Summary, var: usize, v: i64) {
+    match var {
+        os::FILE_SIZE => sum.set_file_size(v),
+        os::SIZE_PKG => sum.set_size_pkg(v),
+        _ => {}
+    }
+}
+
+fn set_a(sum: &mut Summary, var: usize, v: &[String]) {
+    match var {
+        os::CONFLICTS => sum.set_conflicts(v),
+        os::DEPENDS => sum.set_depends(v),
+        os::DESCRIPTION => sum.set_description(v),
+        os::PROVIDES => sum.set_provides(v),
+        os::REQUIRES => sum.set_requires(v),
+        os::SUPERSEDES => sum.set_supersedes(v),
+        _ => {}
+    }
+}
+
+fn push(sum: &mut Summary, var: usize, v: &str) {
+    match var {
+        os::CONFLICTS => sum.push_conflicts(v),
+        os::DEPENDS => sum.push_depends(v),
+        os::DESCRIPTION => sum.push_description(v),
+        os::PROVIDES => sum.push_provides(v),
+        os::REQUIRES => sum.push_requires(v),
+        os::SUPERSEDES => sum.push_supersedes(v),
+        _ => {}
+    }
+}
+
+/// Perform one history step through the public setters.
+pub fn apply(sum: &mut Summary, op: &Op) {
+    match op {
+        Op::Set(var, Val::S(v)) => set_s(sum, *var, v),
+        Op::Set(var, Val::I(v)) => set_i(sum, *var, *v),
+        Op::Set(var, Val::A(v)) => set_a(sum, *var, v),
+        Op::Push(var, v) => push(sum, *var, v),
+    }
+}
+
+/// Set every variable of a model entry (one set call each, table order).
+pub fn build(m: &Entry) -> Summary {
+    let mut sum = Summary::new();
+    for var in 0..NVARS {
+        if let Some(v) = m.get(var) {
+            apply(&mut sum, &Op::Set(var, v.clone()));
+        }
+    }
+    sum
+}
+
+pub fn missing_index(m: &MissingVariable) -> usize {
+    match m {
+        MissingVariable::BuildDate => os::BUILD_DATE,
+        MissingVariable::Categories => os::CATEGORIES,
+        MissingVariable::Comment => os::COMMENT,
+        MissingVariable::Description => os::DESCRIPTION,
+        MissingVariable::MachineArch => os::MACHINE_ARCH,
+        MissingVariable::Opsys => os::OPSYS,
+        MissingVariable::OsVersion => os::OS_VERSION,
+        MissingVariable::Pkgname => os::PKGNAME,
+        MissingVariable::Pkgpath => os::PKGPATH,
+        MissingVariable::PkgtoolsVersion => os::PKGTOOLS_VERSION,
+        MissingVariable::SizePkg => os::SIZE_PKG,
+    }
+}
+
+/// The error kind as a reference cause (None = a kind no entry text can
+/// legitimately produce, i.e. `Io`).
+pub fn cause_of(e: &SummaryError) -> Option<os::Cause> {
+    match e {
+        SummaryError::ParseLine(_) => Some(os::Cause::Line),
+        SummaryError::ParseVariable(_) => Some(os::Cause::Variable),
+        SummaryError::ParseInt(_) => Some(os::Cause::Int),
+        SummaryError::Incomplete(m) => Some(os::Cause::Missing(missing_index(m))),
+        SummaryError::Io(_) => None,
+    }
+}
+
+pub fn show_val(v: &Option<Val>) -> String {
+    match v {
+        None => "unset".into(),
+        Some(Val::S(x)) => format!("{x:?}"),
+        Some(Val::I(x)) => format!("{x}"),
+        Some(Val::A(x)) => format!("{x:?}"),
+    }
+}
+
+/// Compare all 23 getters with the model.
+pub fn same_values(what: &str, sum: &Summary, m: &Entry) -> CaseResult {
+    let got = observe(sum);
+    if let Some(var) = got.first_difference(m) {
+        return Err(format!(
+            "{what}: getter of {} gives {}, model has {}",
+            VARS[var].name,
+            show_val(&got.vals[var]),
+            show_val(&m.vals[var])
+        )
+        .into());
+    }
+    Ok(())
+}
+
+/// Where two texts first differ, as lines.
+pub fn text_diff(got: &str, want: &str) -> String {
+    let g: Vec<&str> = got.split('\n').collect();
+    let w: Vec<&str> = want.split('\n').collect();
+    for k in 0..g.len().max(w.len()) {
+        let (x, y) = (g.get(k), w.get(k));
+        if x != y {
+            return format!("line {}: observed {:?}, expected {:?}", k + 1, x, y);
+        }
+    }
+    "texts are equal".into()
+}
+
+pub fn show_entry(m: &Entry) -> String {
+    format!("{:?}", m.print())
+}
+
+// ---------------------------------------------------------------------------
+// The monitor
+// ---------------------------------------------------------------------------
+
+const HISTORIES: usize = 5;
+
+fn check_model(ev: &mut crate::fw::Ev, m: &Entry, hists: &[Vec<Op>]) -> CaseResult {
+    let want = m.print();
+    let mut texts: Vec<String> = vec![];
+    for (h, ops) in hists.iter().enumerate() {
+        // an independent instance: its own hash seed
+        let mut sum = Summary::new();
+        for op in ops {
+            apply(&mut sum, op);
+            match op {
+                Op::Set(v, _) => ev.count(&format!("var/{}/set", VARS[*v].name)),
+                Op::Push(v, _) => ev.count(&format!("var/{}/push", VARS[*v].name)),
+            }
+        }
+        ev.count("histories");
+        ev.max("max/history_len", ops.len() as u64);
+        // getters after the history
+        ev.eval();
+        same_values(&format!("history {h} ({} calls)", ops.len()), &sum, m)?;
+        // printed form depends only on the values
+        let t = sum.to_string();
+        ev.eval();
+        if t != want {
+            return Err(format!(
+                "history {h} prints a text different from print(M): {}",
+                text_diff(&t, &want)
+            )
+            .into());
+        }
+        // printing twice gives the same text
+        let t2 = format!("{}", sum);
+        ev.eval();
+        if t2 != t {
+            return Err(format!("history {h}: two prints differ: {}", text_diff(&t2, &t)).into());
+        }
+        // is_completed: M has all eleven
+        ev.eval();
+        if !sum.is_completed() {
+            return Err(format!("history {h}: is_completed() is false although all eleven are set").into());
+        }
+        texts.push(t);
+    }
+    // history independence, observation against observation
+    for (h, t) in texts.iter().enumerate().skip(1) {
+        ev.eval();
+        if *t != texts[0] {
+            return Err(format!(
+                "histories 0 and {h} have equal final values but print differently: {}",
+                text_diff(t, &texts[0])
+            )
+            .into());
+        }
+    }
+    for var in 0..NVARS {
+        if m.is_set(var) {
+            ev.count(&format!("var/{}/print", VARS[var].name));
+        }
+    }
+    // generate -> parse: parse the text the library printed
+    let parsed = Summary::from_str(&texts[0])
+        .map_err(|e| Fail::from(format!("the printed text does not parse: {e:?}")))?;
+    ev.eval();
+    same_values("parse(print(M))", &parsed, m)?;
+    // canonical parse -> generate: parse the model's own text, print it
+    let parsed2 = Summary::from_str(&want)
+        .map_err(|e| Fail::from(format!("the canonical text print(M) does not parse: {e:?}")))?;
+    ev.eval();
+    same_values("parse(canonical text)", &parsed2, m)?;
+    let back = parsed2.to_string();
+    ev.eval();
+    if back != want {
+        return Err(format!(
+            "printing the parsed canonical text is not byte-identical: {}",
+            text_diff(&back, &want)
+        )
+        .into());
+    }
+    // ... and without the final newline (how SummaryStream hands entries over)
+    let trimmed = &want[..want.len() - 1];
+    let parsed3 = Summary::from_str(trimmed)
+        .map_err(|e| Fail::from(format!("the canonical text without final newline does not parse: {e:?}")))?;
+    ev.eval();
+    same_values("parse(canonical text without final newline)", &parsed3, m)?;
+    ev.eval();
+    let back3 = parsed3.to_string();
+    if back3 != want {
+        return Err(format!(
+            "printing the parsed canonical text (no final newline) differs: {}",
+            text_diff(&back3, &want)
+        )
+        .into());
+    }
+    // a clone is the same entry
+    let cl = parsed2.clone();
+    ev.eval();
+    if cl.to_string() != want {
+        return Err("a clone of the parsed entry prints differently".to_string().into());
+    }
+    for var in 0..NVARS {
+        if m.is_set(var) {
+            ev.count(&format!("var/{}/parse", VARS[var].name));
+        }
+    }
+    let awkward = m.vals.iter().flatten().filter(|v| gs::awkward_val(v)).count();
+    ev.max("max/optional_set", m.optional_set() as u64);
+    if awkward > 0 {
+        ev.count("models/with_awkward_value");
+    }
+    if m.optional_set() > 0 && awkward > 0 {
+        ev.nontrivial(hash_strs(&[want.as_bytes()]));
+    }
+    Ok(())
+}
+
+/// HISTORIES call histories realising `m`.  The generator is checked against
+/// the model here, outside any case body, so that a generator bug stops the
+/// harness instead of being reported as a finding about the library.
+fn histories(r: &mut crate::rng::Rng, m: &Entry) -> Vec<Vec<Op>> {
+    let hists: Vec<Vec<Op>> = (0..HISTORIES).map(|_| gs::history(r, m)).collect();
+    for h in &hists {
+        assert!(gs::replay_history(h) == *m, "harness bug: history does not realise its model");
+    }
+    hists
+}
+
+pub fn run(cx: &mut Cx) {
+    cx.default_budget();
+    for var in 0..NVARS {
+        for what in ["set", "print", "parse"] {
+            cx.ev.require(&format!("var/{}/{}", VARS[var].name, what));
+        }
+        if VARS[var].kind == Kind::A {
+            cx.ev.require(&format!("var/{}/push", VARS[var].name));
+        }
+    }
+    for c in ["empty", "eq", "blank", "lookalike", "multibyte"] {
+        cx.ev.require(&format!("value_class/{c}"));
+    }
+    cx.ev.require("order/pkg_options_and_pkgname");
+
+    // (a) seeded model entries, 5 histories each
+    let n = cx.per_shard(16, 4_000, 64_000, 640_000);
+    let mut r = cx.stream("models");
+    for k in 0..n {
+        // every fourth model sets all 23 variables
+        let m = gs::model(&mut r, k % 4 == 0, 1, 2);
+        let hists = histories(&mut r, &m);
+        cx.check(
+            || {
+                format!(
+                    "model {} with {} histories, e.g. [{}]",
+                    show_entry(&m),
+                    hists.len(),
+                    hists[0].iter().map(|o| o.show()).collect::<Vec<_>>().join("; ")
+                )
+            },
+            |ev| {
+                ev.count("workload/random_models");
+                if m.is_set(os::PKG_OPTIONS) {
+                    ev.count("order/pkg_options_and_pkgname");
+                }
+                check_model(ev, &m, &hists)
+            },
+        );
+    }
+
+    // (b) one awkward value class at a time in every variable that can hold
+    // it: each class reaches each string/multi-line variable by construction.
+    let classes = [
+        gs::VClass::Empty,
+        gs::VClass::Eq,
+        gs::VClass::Blank,
+        gs::VClass::Lookalike,
+        gs::VClass::Multibyte,
+    ];
+    let rounds = cx.pick_tier(1u64, 2, 8, 64);
+    let mut r = cx.shared_stream("class-sweep");
+    let mut case = 0u64;
+    for _ in 0..rounds {
+        for c in classes {
+            for var in 0..NVARS {
+                if VARS[var].kind == Kind::I {
+                    continue;
+                }
+                let mut m = gs::model(&mut r, false, 1, 3);
+                let special = gs::value_of_class(&mut r, c, 4);
+                match VARS[var].kind {
+                    Kind::S => m.set(var, Val::S(special)),
+                    _ => {
+                        let mut l = gs::list(&mut r);
+                        let at = r.below(l.len());
+                        l[at] = special;
+                        m.set(var, Val::A(l));
+                    }
+                }
+                let hists = histories(&mut r, &m);
+                case += 1;
+                if !cx.mine(case) {
+                    continue;
+                }
+                cx.check(
+                    || format!("{} value in {}: model {}", c.name(), VARS[var].name, show_entry(&m)),
+                    |ev| {
+                        ev.count("workload/class_sweep");
+                        ev.count(&format!("value_class/{}", c.name()));
+                        check_model(ev, &m, &hists)
+                    },
+                );
+            }
+        }
+    }
+
+    // (c) extreme sizes in both integer variables
+    if cx.tier != Tier::Mini {
+        let mut r = cx.shared_stream("sizes");
+        let sizes = [0i64, 1, -1, i64::MAX, i64::MIN, i64::MAX - 1, i64::MIN + 1, 1 << 32, -(1 << 32)];
+        let mut case = 0u64;
+        for &a_ in &sizes {
+            for &b_ in &sizes {
+                let mut m = gs::model(&mut r, false, 1, 3);
+                m.set(os::FILE_SIZE, Val::I(a_));
+                m.set(os::SIZE_PKG, Val::I(b_));
+                let hists = histories(&mut r, &m);
+                case += 1;
+                if !cx.mine(case) {
+                    continue;
+                }
+                cx.check(
+                    || format!("FILE_SIZE={a_} SIZE_PKG={b_}: model {}", show_entry(&m)),
+                    |ev| {
+                        ev.count("workload/sizes");
+                        check_model(ev, &m, &hists)
+                    },
+                );
+            }
+        }
+    }
+}
